@@ -228,6 +228,14 @@ ITER_SOURCES = ["IntoIterator::into_iter", "slice::iter", "Vec::iter", "HashMap:
                 "Vec::drain", "HashMap::into_keys"]
 
 
+def _iterator_method(t):
+    """t is a call of some other std Iterator / DoubleEndedIterator adapter (filter, take, skip, rev, take_while, step_by, chain, ...) on an iterator."""
+    if not (isinstance(t, tuple) and t and t[0] == "call" and t[2]):
+        return False
+    m = re.search(r"(?:^|[ <:])(?:Iterator|DoubleEndedIterator)>?::(\w+)$", strip_generics(t[1]))
+    return bool(m) and m.group(1) not in ("next", "next_back", "collect", "count", "sum", "fold", "all", "any", "find", "position", "last", "nth", "max", "min")
+
+
 def elem_of(t):
     """If t is (part of) the element yielded by `Iterator::next` in a for loop, return
     (collection term, [adapter names], element projection path) else None."""
@@ -244,7 +252,7 @@ def elem_of(t):
                 adapters = []
                 while True:
                     it = peel(it, transparent=["Deref::deref", "DerefMut::deref_mut"])
-                    if is_call(it, ADAPTERS):
+                    if is_call(it, ADAPTERS) or _iterator_method(it):
                         adapters.append(strip_generics(it[1]).split("::")[-1])
                         it = it[2][0]
                         continue
